@@ -41,6 +41,27 @@ type Action struct {
 	V  int    `json:"v,omitempty"` // value
 	C  bool   `json:"c,omitempty"` // send/try/next: the context is already expired; sclose: close with an error
 	K  int    `json:"k,omitempty"` // sclose with an error: which one (index into closeKinds; 0 = the harness's own error value)
+	// send/try/next: the context can never expire (Done() == nil: context.Background(), context.TODO(), a
+	// WithValue / WithoutCancel chain on top of them); written `2` where an expired context is written `1`.
+	// To the Lean LTS it is a live context that nobody expires; a `cancel` aimed at such a call is dropped.
+	NX bool `json:"nx,omitempty"`
+}
+
+type ctxKey struct{}
+
+// neverCtx: the contexts of package context whose Done() is nil.
+func neverCtx(v int) context.Context {
+	switch ((v % 4) + 4) % 4 {
+	case 1:
+		return context.TODO()
+	case 2:
+		return context.WithValue(context.Background(), ctxKey{}, v)
+	case 3:
+		parent, cancel := context.WithCancel(context.Background())
+		cancel()
+		return context.WithoutCancel(parent)
+	}
+	return context.Background()
 }
 
 // closeKinds: the error the sender is closed with. All of them are the *sender's* error: nobody has
@@ -64,6 +85,7 @@ func closeError(k int) error {
 // ModelString is the action as the Lean LTS knows it (the LTS does not distinguish close errors).
 func (a Action) ModelString() string {
 	a.K = 0
+	a.NX = false
 	return a.String()
 }
 
@@ -71,6 +93,8 @@ func (a Action) String() string {
 	b := "0"
 	if a.C {
 		b = "1"
+	} else if a.NX && (a.Op == "send" || a.Op == "try" || a.Op == "next") {
+		b = "2"
 	}
 	switch a.Op {
 	case "send", "try":
@@ -102,7 +126,7 @@ func parseAction(l string) (Action, bool) {
 	}
 	switch f[0] {
 	case "send", "try":
-		return Action{Op: f[0], I: at(1), V: at(2), C: at(3) == 1}, true
+		return Action{Op: f[0], I: at(1), V: at(2), C: at(3) == 1, NX: at(3) == 2}, true
 	case "sclose":
 		a := Action{Op: f[0], C: at(1) == 1}
 		if len(f) > 2 && a.C {
@@ -117,7 +141,7 @@ func parseAction(l string) (Action, bool) {
 		}
 		return a, true
 	case "next":
-		return Action{Op: f[0], C: at(1) == 1}, true
+		return Action{Op: f[0], C: at(1) == 1, NX: at(1) == 2}, true
 	case "cancel":
 		return Action{Op: f[0], I: at(1)}, true
 	case "cancelnext", "rclose":
@@ -195,6 +219,7 @@ type call struct {
 	cancel context.CancelFunc
 	v      int
 	try    bool
+	never  bool // the call's context cannot expire: `cancel` is not an action on it
 }
 
 func (c *call) finish(res string) {
@@ -274,7 +299,10 @@ func runOnce(t *testing.T, sc Scenario) (tr Trace, stuck []string) {
 			sort.Strings(done)
 			return done
 		}
-		newCtx := func(expired bool) (context.Context, context.CancelFunc) {
+		newCtx := func(expired bool, never ...int) (context.Context, context.CancelFunc) {
+			if !expired && len(never) > 0 {
+				return neverCtx(never[0]), func() {}
+			}
 			ctx, cancel := context.WithCancel(context.Background())
 			if expired {
 				cancel()
@@ -289,7 +317,10 @@ func runOnce(t *testing.T, sc Scenario) (tr Trace, stuck []string) {
 					continue
 				}
 				ctx, cancel := newCtx(a.C)
-				c := &call{cancel: cancel, v: a.V, try: a.Op == "try"}
+				if a.NX && !a.C {
+					ctx, cancel = newCtx(false, a.V)
+				}
+				c := &call{cancel: cancel, v: a.V, try: a.Op == "try", never: a.NX && !a.C}
 				pend[a.I] = c
 				v := a.V
 				if a.Op == "send" {
@@ -320,7 +351,10 @@ func runOnce(t *testing.T, sc Scenario) (tr Trace, stuck []string) {
 					continue
 				}
 				ctx, cancel := newCtx(a.C)
-				c := &call{cancel: cancel}
+				if a.NX && !a.C {
+					ctx, cancel = newCtx(false, len(tr))
+				}
+				c := &call{cancel: cancel, never: a.NX && !a.C}
 				pnext = c
 				go func() {
 					res := "panic"
@@ -336,12 +370,12 @@ func runOnce(t *testing.T, sc Scenario) (tr Trace, stuck []string) {
 					}
 				}()
 			case "cancel":
-				if a.I < 0 || a.I >= sc.N || pend[a.I] == nil {
+				if a.I < 0 || a.I >= sc.N || pend[a.I] == nil || pend[a.I].never {
 					continue
 				}
 				pend[a.I].cancel()
 			case "cancelnext":
-				if pnext == nil {
+				if pnext == nil || pnext.never {
 					continue
 				}
 				pnext.cancel()
@@ -826,7 +860,65 @@ func genScenario(r *vlib.Rand, res *vlib.Result) Scenario {
 			sc.Acts = append(sc.Acts, sclose(r, r.Bool()))
 		}
 	}
+	// one scenario in four: the calls that are given a live context get one that can never expire
+	// (all of them, or each with probability 1/2)
+	if r.Chance(1, 4) {
+		res.Count("never-expiring-contexts")
+		all := r.Bool()
+		for i := range sc.Acts {
+			a := &sc.Acts[i]
+			if (a.Op == "send" || a.Op == "try" || a.Op == "next") && !a.C && (all || r.Bool()) {
+				a.NX = true
+			}
+		}
+	}
 	return sc
+}
+
+// directedNeverExpiring: Send / TrySend / Next calls whose context can never expire (Background, TODO,
+// WithValue, WithoutCancel), parked on a full buffer or on an unbuffered pipe without a reader, then each
+// way the text names for such a call to return: the receiver closes, the sender closes (nil / error), a
+// value becomes available / is taken; and the same calls started after the Close.
+func directedNeverExpiring() []Scenario {
+	var out []Scenario
+	for _, b := range []int{0, 1, 2} {
+		for _, extra := range []int{1, 2} {
+			for _, end := range []string{"rclose", "sclose", "sclose-err", "next"} {
+				for _, first := range []bool{false, true} {
+					sc := Scenario{N: 2, B: b}
+					v := 100
+					var sends []Action
+					for j := 0; j < b; j++ { // fills the buffer
+						v++
+						sends = append(sends, Action{Op: "send", I: 0, V: v, NX: true})
+					}
+					for j := 0; j < extra; j++ { // parked
+						v++
+						sends = append(sends, Action{Op: "send", I: j, V: v, NX: true})
+					}
+					var fin Action
+					switch end {
+					case "rclose":
+						fin = Action{Op: "rclose"}
+					case "sclose":
+						fin = Action{Op: "sclose"}
+					case "sclose-err":
+						fin = Action{Op: "sclose", C: true}
+					case "next":
+						fin = Action{Op: "next", NX: true}
+					}
+					if first {
+						sc.Acts = append(append(sc.Acts, fin), sends...)
+					} else {
+						sc.Acts = append(append(sc.Acts, sends...), fin)
+					}
+					sc.Acts = append(sc.Acts, Action{Op: "try", I: 1, V: 901, NX: true}, Action{Op: "next", NX: true}, Action{Op: "next", NX: true})
+					out = append(out, sc)
+				}
+			}
+		}
+	}
+	return out
 }
 
 // directedTryAfterEnd: `send x k; sclose; next x (k+1)` - the last Next reports the end (or the close
@@ -1230,6 +1322,11 @@ func TestVerif(t *testing.T) {
 	// Close(nil) / Close(err) x 0..2 values sent before the Close x one or two TrySends), then Next again
 	for _, sc := range directedTryAfterEnd() {
 		res.Count("directed-try-after-end")
+		c.check(sc)
+	}
+	// directed, every run: calls with a context that can never expire, parked, then every way they may end
+	for _, sc := range directedNeverExpiring() {
+		res.Count("directed-never-expiring")
 		c.check(sc)
 	}
 	r := vlib.NewRand(env.Seed)
